@@ -11,6 +11,7 @@ import (
 	"flag"
 	"fmt"
 	"os"
+	"runtime"
 	"runtime/debug"
 	"sort"
 	"strconv"
@@ -116,6 +117,8 @@ func cmdCheck(args []string) (code int) {
 	c.BuildSSA()
 	var wg sync.WaitGroup
 	sem := make(chan struct{}, 8)
+	var mu sync.Mutex
+	finished := map[string]bool{}
 	for _, id := range p.Rules {
 		rule := rules.Get(id)
 		if rule == nil {
@@ -136,11 +139,67 @@ func cmdCheck(args []string) (code int) {
 				if e := recover(); e != nil {
 					rr.Unk("engine-panic|"+id, "", fmt.Sprintf("rule panicked: %v\n%s", e, debug.Stack()))
 				}
+				mu.Lock()
+				finished[id] = true
+				mu.Unlock()
 			}()
 			rule.Run(c, rr)
 		}()
 	}
-	wg.Wait()
+	// Watchdog: an analysis that does not finish within its time / memory bounds on this tree has not
+	// decided its obligations, which counts as failure (never as a silent pass, never as a hang).
+	limit := 20 * time.Minute
+	if *tier == "thorough" {
+		limit = 120 * time.Minute
+	}
+	if v, err := strconv.Atoi(os.Getenv("JSV_TIMEOUT_S")); err == nil && v > 0 {
+		limit = time.Duration(v) * time.Second
+	}
+	memLimit := uint64(16) << 30
+	if v, err := strconv.Atoi(os.Getenv("JSV_MEM_GB")); err == nil && v > 0 {
+		memLimit = uint64(v) << 30
+	}
+	done := make(chan struct{})
+	go func() { wg.Wait(); close(done) }()
+	deadline := time.After(limit)
+	tick := time.NewTicker(2 * time.Second)
+	defer tick.Stop()
+	why := ""
+wait:
+	for {
+		select {
+		case <-done:
+			break wait
+		case <-deadline:
+			why = fmt.Sprintf("the analysis did not finish within %s on this tree", limit)
+			break wait
+		case <-tick.C:
+			var ms runtime.MemStats
+			runtime.ReadMemStats(&ms)
+			if ms.HeapAlloc > memLimit {
+				why = fmt.Sprintf("the analysis needed more than %d GB of memory on this tree", memLimit>>30)
+				break wait
+			}
+		}
+	}
+	if why != "" {
+		mu.Lock()
+		var results []*report.RuleResult
+		for _, rr := range out.Results {
+			if finished[rr.Rule] {
+				results = append(results, rr)
+				continue
+			}
+			nr := &report.RuleResult{Rule: rr.Rule, Doc: rr.Doc, Min: 0}
+			nr.Unk("unfinished|"+rr.Rule, "", why+": the obligations of this rule are undecided")
+			results = append(results, nr)
+		}
+		out.Results = results
+		mu.Unlock()
+		out.WallS = time.Since(start).Seconds()
+		code := out.Finish(*verif)
+		os.Exit(code)
+	}
 	if c.Prog != nil {
 		out.Analysed["ssa_module_functions"] = len(c.ModuleFunctions())
 	}
